@@ -637,6 +637,16 @@ func (sim *Sim) waitQuiet(d time.Duration) bool {
 	}
 }
 
+// peerParked: the harness's peer-side reader is parked in the network wait
+func (sim *Sim) peerParked() bool {
+	for _, g := range allStacks() {
+		if strings.Contains(g.text, "connsim.(*Sim).peerReader") {
+			return g.status == "IO wait"
+		}
+	}
+	return false
+}
+
 // describe the blocked connection goroutines (evidence for a stuck state)
 func (sim *Sim) blockedSummary() string {
 	var parts []string
@@ -979,16 +989,34 @@ func run(cfg Cfg) (Sx, *Sim) {
 	// wait for the peer to see the end of the stream (bounded).  A time-out is inconclusive,
 	// unless nothing is left that could still send the FIN: the connection is Terminated and
 	// none of its goroutines is alive (then the write side was never shut down).
-	select {
-	case <-sim.peerDone:
-	case <-time.After(4 * time.Second):
-		if sim.conn.VerifState() == 4 && !sim.pumpsAlive() {
-			sim.noFin = 1
-		} else {
-			sim.inconclusive("peer did not observe end-of-stream within 4s")
+	deadline := time.Now().Add(4 * time.Second)
+	seen := 0
+waitEOF:
+	for {
+		select {
+		case <-sim.peerDone:
+			break waitEOF
+		case <-time.After(100 * time.Millisecond):
 		}
-		sim.peer.SetReadDeadline(time.Now())
-		<-sim.peerDone
+		// evidence, not a timer: the connection is Terminated, none of its goroutines is left and
+		// the peer's reader is parked in the network wait (nothing more is coming, not even a FIN)
+		if sim.conn.VerifState() == 4 && !sim.pumpsAlive() && sim.peerParked() {
+			seen++
+			if seen >= 3 {
+				sim.noFin = 1
+				sim.peer.SetReadDeadline(time.Now())
+				<-sim.peerDone
+				break waitEOF
+			}
+		} else {
+			seen = 0
+		}
+		if time.Now().After(deadline) {
+			sim.inconclusive("peer did not observe end-of-stream within 4s")
+			sim.peer.SetReadDeadline(time.Now())
+			<-sim.peerDone
+			break waitEOF
+		}
 	}
 	// drain the channels
 	for sim.takeInbound() {
